@@ -1,0 +1,20 @@
+//go:build verif
+
+package types
+
+// VerifOpenTransaction is a read-only observer: id of the registered transaction
+// ("" if none) and whether its rollback timer is currently armed.
+func (t *TransactionManager) VerifOpenTransaction() (id string, timerArmed bool) {
+	t.tmMutex.Lock()
+	defer t.tmMutex.Unlock()
+	if t.transaction == nil {
+		return "", false
+	}
+	id = t.transaction.transactionId
+	if t.transaction.timer != nil {
+		t.transaction.timer.doneMutex.Lock()
+		timerArmed = t.transaction.timer.done != nil
+		t.transaction.timer.doneMutex.Unlock()
+	}
+	return id, timerArmed
+}
